@@ -42,6 +42,10 @@ def classify_residue(case):
             probs.append(f"released copy {c.id} on {n.name} not deleted although {others} healthy archive copies exist elsewhere and it is no pending source")
     # 3. import requests completed (no lock files are generated here)
     for r in db.ArchiveFileImportRequest.select().where(db.ArchiveFileImportRequest.completed == 0):
+        nd_ = nodes.get(r.node_id)
+        full = os.path.join(nd_.root, r.path) if nd_ is not None else None
+        if full and os.path.exists(os.path.join(os.path.dirname(full), "." + os.path.basename(full) + ".lock")):
+            continue         # the documented exception: the file is still locked by its writer
         if r.node_id in all_usable:
             probs.append(f"import request {r.id} ({r.path}) on managed node still pending")
     # 4. transfer requests
